@@ -429,8 +429,10 @@ func Build(u *Universe) *World {
 			if t.Version == "" {
 				continue
 			}
-			if !semver.IsValid(t.Version) || semver.Canonical(t.Version) != t.Version {
-				panic("non-canonical version " + t.Version)
+			// like a git server, any tag <dir>/<valid semver> is a version, canonical or not
+			// (v1.2, v1.2.0+hotfix)
+			if !semver.IsValid(t.Version) {
+				panic("invalid version " + t.Version)
 			}
 			repo.refs["refs/tags/"+tagName(t)] = rev.id
 			pp := t.Dir
